@@ -244,6 +244,23 @@ claim("C13",
       "+ history / thread oracle",
       "DESIGN.md §7 C13")
 
+claim("C14",
+      "Lean theorems on a model of the file-system side of reformat_file/reformat_files (create temporary sibling, write in "
+      "arbitrary chunks, optional rename to the backup name, rename over the target): TARGET_WHOLE (after EVERY prefix of a "
+      "file's operation list — every crash point, every failing operation, the write split arbitrarily — the target holds "
+      "the complete old content, or the complete new content with the old one in the backup, or, with backups, nothing "
+      "while the backup holds the old content), COMPLETE, INPUT_UNTOUCHED, FAIL_NOTHING, MULTI (any prefix of a run over "
+      "several files with pairwise distinct paths leaves every file whole). The operation list is tied to reality: the "
+      "mutating system calls of the real CLI on sandbox paths under strace equal the model's list in 10 scenarios. "
+      "Fault enumeration on the real code: at every mutating operation the operation fails, or the process dies before it, "
+      "or dies half-way through the write; rename(2) failing or killing the process via strace injection.",
+      COMMON_NOTE + "Atomicity of rename(2) and 'a failed system call changes nothing' are laws about the operating system. "
+      "Durability after power loss (no fsync) is outside the property. mkdir of parent directories is not modelled. One "
+      "corner is a recorded finding (the backup name of one argument is another argument).",
+      "Lean 4 proof (invariant over all prefixes of the operation list, frame lemma for multi-file runs) + strace "
+      "correspondence of the operation list + fault enumeration",
+      "DESIGN.md §7 C14")
+
 NOT_YET = {
 }
 
